@@ -231,6 +231,13 @@ class SimFS:
         self.open_handles.append(f)
         return f
 
+    def rw(self, name, script=None):
+        """A caller's own read/write stream ("w+"): written, rewound with seek(0) and read again through the same handle."""
+        self.files[name] = ""
+        f = SimTextFile(self, name, "w+", "", script if script is not None else self.script.get("write", {}))
+        self.open_handles.append(f)
+        return f
+
     def crash(self):
         """Power loss: every open handle is dropped; pending (unflushed) text is lost."""
         lost = 0
@@ -268,13 +275,24 @@ class SimTextFile(io.TextIOBase):
 
     # -- io.TextIOBase protocol
     def readable(self):
-        return self.mode_ == "r"
+        return self.mode_ == "r" or "+" in self.mode_
 
     def writable(self):
         return self.mode_ != "r"
 
     def seekable(self):
-        return False
+        return "+" in self.mode_
+
+    def seek(self, pos, whence=0):
+        """Only the rewind of a "w+" stream is supported: what was written becomes durable and is read from the start."""
+        self._check_open()
+        if "+" not in self.mode_ or pos != 0 or whence != 0:
+            raise io.UnsupportedOperation("seek")
+        self.flush()
+        self.text = self.fs.files.get(self.path_, "")
+        self.pos = 0
+        self.fs.ctx.event("fs", "rewind", self.path_, len(self.text))
+        return 0
 
     @property
     def closed(self):
@@ -298,7 +316,7 @@ class SimTextFile(io.TextIOBase):
 
     def read(self, size=-1):
         self._check_open()
-        if self.mode_ != "r":
+        if not self.readable():
             raise io.UnsupportedOperation("not readable")
         self._maybe_eio()
         remaining = len(self.text) - self.pos
@@ -324,7 +342,7 @@ class SimTextFile(io.TextIOBase):
 
     def readline(self, size=-1):
         self._check_open()
-        if self.mode_ != "r":
+        if not self.readable():
             raise io.UnsupportedOperation("not readable")
         self._maybe_eio()
         j = self.text.find("\n", self.pos)
